@@ -8,19 +8,20 @@ export CARGO_NET_OFFLINE=true
 git -C /repo worktree add --detach "$WT" HEAD -q || exit 2
 trap 'git -C /repo worktree remove --force "$WT" >/dev/null 2>&1' EXIT
 cd "$WT"
-export CARGO_TARGET_DIR=/tmp/wt/verify_target
+export CARGO_TARGET_DIR=${VERIFY_TARGET:-/tmp/wt/verify_target}
+T=/tmp/wt/v_$$
 ok=1
 suite() { cargo test --workspace --no-fail-fast --offline -j 4 2>&1 | grep -E "^test .* \.\.\. " | sed 's/ (line [0-9]*)//' | sort; }
 cp "$SD/demo.rs" tests/seed_demo.rs
-echo "== demo WITHOUT patch"; if cargo test --offline --test seed_demo >/tmp/wt/v_demo0.log 2>&1; then echo "  passes (good)"; else echo "  FAILS without patch (bad)"; tail -15 /tmp/wt/v_demo0.log; ok=0; fi
+echo "== demo WITHOUT patch"; if cargo test --offline --test seed_demo >${T}_demo0.log 2>&1; then echo "  passes (good)"; else echo "  FAILS without patch (bad)"; tail -15 ${T}_demo0.log; ok=0; fi
 rm tests/seed_demo.rs
-suite > /tmp/wt/v_base.txt
-if ! git apply "$SD/patch.diff" 2>/tmp/wt/v_apply.log; then echo "patch does not apply:"; cat /tmp/wt/v_apply.log; exit 1; fi
+suite > ${T}_base.txt
+if ! git apply "$SD/patch.diff" 2>${T}_apply.log; then echo "patch does not apply:"; cat ${T}_apply.log; exit 1; fi
 echo "== build with hooks"; cargo build --offline --features verif_hooks,adjacency_matrix 2>&1 | grep -E "^error" -A5 && ok=0
-suite > /tmp/wt/v_patch.txt
-echo "== baseline suite diff (empty = unchanged)"; if ! diff /tmp/wt/v_base.txt /tmp/wt/v_patch.txt; then ok=0; fi
-echo "   tests: $(wc -l < /tmp/wt/v_patch.txt), failing: $(grep -c FAILED /tmp/wt/v_patch.txt)"
+suite > ${T}_patch.txt
+echo "== baseline suite diff (empty = unchanged)"; if ! diff ${T}_base.txt ${T}_patch.txt; then ok=0; fi
+echo "   tests: $(wc -l < ${T}_patch.txt), failing: $(grep -c FAILED ${T}_patch.txt)"
 cp "$SD/demo.rs" tests/seed_demo.rs
-echo "== demo WITH patch"; if cargo test --offline --test seed_demo >/tmp/wt/v_demo1.log 2>&1; then echo "  PASSES with patch (bad)"; ok=0; else echo "  fails (good)"; grep -E "^test .* FAILED|panicked" /tmp/wt/v_demo1.log | head -5; fi
+echo "== demo WITH patch"; if cargo test --offline --test seed_demo >${T}_demo1.log 2>&1; then echo "  PASSES with patch (bad)"; ok=0; else echo "  fails (good)"; grep -E "^test .* FAILED|panicked" ${T}_demo1.log | head -5; fi
 cd /; [ $ok = 1 ] && echo "SEED CONFIRMED" || echo "SEED NOT CONFIRMED"
 [ $ok = 1 ]
